@@ -183,6 +183,7 @@ func parseHeaders(h *protocol.RequestHeader, buf []byte) (int, error) {
 	s.B = buf
 	s.DisableNormalizing = h.IsDisableNormalizing()
 	var err error
+	seenTrailer := false
 	for s.Next() {
 		if len(s.Key) > 0 {
 			// Spaces between the header key and colon are not allowed.
@@ -248,7 +249,13 @@ func parseHeaders(h *protocol.RequestHeader, buf []byte) (int, error) {
 					continue
 				}
 				if utils.CaseInsensitiveCompare(s.Key, bytestr.StrTrailer) {
-					if nerr := h.Trailer().SetTrailers(s.Value); nerr != nil {
+					// several Trailer fields combine into one list (RFC 7230, section 3.2.2)
+					setTrailers := h.Trailer().AddTrailers
+					if !seenTrailer {
+						seenTrailer = true
+						setTrailers = h.Trailer().SetTrailers
+					}
+					if nerr := setTrailers(s.Value); nerr != nil {
 						if err == nil {
 							err = nerr
 						}
